@@ -74,6 +74,8 @@ type vWLine struct {
 	Mutated    bool   `json:"mutated"` // the attack changed at least one byte
 	Note       string `json:"note"`
 	Panic      string `json:"panic"`
+	ReplyFrames int   `json:"replyFrames"` // buffers the receiver handed to its transport / wrote to the stream
+	ReplySealed bool  `json:"replySealed"` // ... all of them sealed under the receiver's primary key with its label
 	// byte campaign (attack "campaign"): every truncation and byte mutations of the genuine frame
 	Injected     int `json:"injected"`
 	ActedMut     int `json:"actedMut"`     // mutated / truncated inputs on which the receiver acted (version byte excluded)
@@ -462,6 +464,12 @@ func vWRun(t *testing.T, s *vSink, id int, c vWCase) (l vWLine) {
 			p := ping{SeqNo: 4242, Node: B.m.config.Name, SourceAddr: ipA, SourcePort: 7946, SourceNode: A.m.config.Name}
 			l.SentDigest = vDigest([]byte("ack"), []byte{0x10, 0x92})
 			sendErr = A.m.encodeAndSendMsg(addrB, pingMsg, &p)
+		case "indirect":
+			// ask the receiver to probe a silent third party on our behalf and to nack if it stays silent
+			ind := indirectPingReq{SeqNo: 4242, Target: net.IPv4(10, 0, 0, 77).To4(), Port: 7946, Node: "ghost", Nack: true,
+				SourceAddr: ipA, SourcePort: 7946, SourceNode: A.m.config.Name}
+			l.SentDigest = vDigest([]byte("nack"), []byte{0x10, 0x92})
+			sendErr = A.m.encodeAndSendMsg(addrB, indirectPingMsg, &ind)
 		case "compound":
 			a := alive{Incarnation: 7, Node: "third", Addr: net.IPv4(10, 0, 0, 3).To4(), Port: 7946, Meta: payload, Vsn: []uint8{1, 5, 2, 0, 0, 0}}
 			l.SentDigest = vDigest([]byte(a.Node), []byte{7}, a.Meta)
@@ -572,6 +580,7 @@ func vWRun(t *testing.T, s *vSink, id int, c vWCase) (l vWLine) {
 	l.Mutated = !bytes.Equal(wire, sent[0])
 
 	// inject into the receiver
+	var streamReply []byte
 	nw.partition(map[string]int{})
 	ops0 := s.lines
 	s.mu.Lock()
@@ -597,6 +606,10 @@ func vWRun(t *testing.T, s *vSink, id int, c vWCase) (l vWLine) {
 		}
 		_ = c2.Close()
 		l.Reply = vClassifyStreamReply(got.Bytes(), c.R)
+		streamReply = append([]byte(nil), got.Bytes()...)
+	}
+	if c.Msg == "indirect" {
+		time.Sleep(900 * time.Millisecond) // the relay's own probe timeout, then its nack
 	}
 	synctest.Wait()
 	_ = ops0
@@ -660,6 +673,37 @@ func vWRun(t *testing.T, s *vSink, id int, c vWCase) (l vWLine) {
 		}
 		if l.Reply == "state" || l.NodeOps > 0 {
 			l.Acted = true
+		}
+	}
+	// C15 for the receiver's own output: replies, relayed pings, nacks, error replies, its push/pull state
+	l.ReplySealed = true
+	rkey := vWKeys[firstOr(c.R.Keys, "")]
+	for _, f := range replies {
+		l.ReplyFrames++
+		lab, body, ok := vSplitLabel(f)
+		if !ok || rkey == nil || lab != c.R.Label {
+			l.ReplySealed = false
+			continue
+		}
+		if _, _, ok := vOpenPacket(body, rkey, c.R.Label); !ok {
+			l.ReplySealed = false
+		}
+	}
+	if len(streamReply) > 0 {
+		l.ReplyFrames++
+		if rkey == nil {
+			l.ReplySealed = false
+		} else if _, ok := vOpenStream(streamReply, rkey, c.R.Label); !ok {
+			l.ReplySealed = false
+		}
+	}
+	if c.Msg == "indirect" {
+		for _, r := range replies {
+			if seq, ok := vDecodeNack(r, c.R); ok {
+				l.Acted = true
+				l.Reply = "nack"
+				l.Delivered = vDigest([]byte("nack"), []byte{byte(seq >> 8), byte(seq)})
+			}
 		}
 	}
 	// anything else the receiver did also counts as acting
@@ -805,6 +849,52 @@ func vClassifyStreamReply(b []byte, r vWCfg) string {
 		return "state"
 	}
 	return "other"
+}
+
+// vDecodeNack: like vDecodeAck for nack responses
+func vDecodeNack(b []byte, r vWCfg) (uint32, bool) {
+	lab, body, ok := vSplitLabel(b)
+	if !ok {
+		return 0, false
+	}
+	plain := body
+	if len(r.Keys) > 0 && r.Vout {
+		p, _, ok := vOpenPacket(body, vWKeys[r.Keys[0]], lab)
+		if !ok {
+			return 0, false
+		}
+		plain = p
+	}
+	for depth := 0; depth < 4 && len(plain) > 0; depth++ {
+		switch messageType(plain[0]) {
+		case hasCrcMsg:
+			if len(plain) < 5 {
+				return 0, false
+			}
+			plain = plain[5:]
+		case compoundMsg:
+			_, parts, err := decodeCompoundMessage(plain[1:])
+			if err != nil || len(parts) == 0 {
+				return 0, false
+			}
+			plain = parts[0]
+		case compressMsg:
+			p, err := decompressPayload(plain[1:])
+			if err != nil {
+				return 0, false
+			}
+			plain = p
+		case nackRespMsg:
+			var a nackResp
+			if err := decode(plain[1:], &a); err != nil {
+				return 0, false
+			}
+			return a.SeqNo, true
+		default:
+			return 0, false
+		}
+	}
+	return 0, false
 }
 
 // vDecodeAck opens a packet the receiver sent back and returns the ack's sequence number
